@@ -9,7 +9,10 @@ use crate::receiver::writer::{
 use crate::tools::error::{FluteError, Result};
 use std::collections::VecDeque;
 use std::rc::Rc;
+#[cfg(not(feature = "ypo_flute_verif"))]
 use std::time::Instant;
+#[cfg(feature = "ypo_flute_verif")]
+use crate::verif::clock::Instant;
 use std::time::{Duration, SystemTime};
 
 #[cfg(feature = "opentelemetry")]
@@ -483,6 +486,8 @@ impl ObjectReceiver {
         let mut sbn = sbn_start as usize;
         let writer = self.block_writer.as_mut().unwrap();
         while sbn >= self.blocks_offset && sbn - self.blocks_offset < self.blocks.len() {
+            #[cfg(feature = "ypo_flute_verif")]
+            crate::verif::tick("objectreceiver::write_blocks");
             let block_offset = sbn - self.blocks_offset;
             let block = &mut self.blocks[block_offset];
             if !block.completed {
@@ -596,6 +601,8 @@ impl ObjectReceiver {
         }
 
         while let Some(item) = self.cache.pop() {
+            #[cfg(feature = "ypo_flute_verif")]
+            crate::verif::tick("objectreceiver::push_from_cache");
             let pkt = item.to_pkt();
             if self.push_to_block(&pkt, now).is_err() {
                 self.error("Fail to push block", now, false);
